@@ -303,9 +303,6 @@ pub trait DynProp: Sync + Send {
     fn name(&self) -> &'static str;
     fn run(&self, run: &RunCtx) -> Vec<Found>;
     fn replay(&self, case: &Value, stats: &Stats) -> Result<Check, String>;
-    /// Decodes one case from raw bytes (the bytes are the random stream of the sub-check's own proptest strategy) and checks it.
-    /// Returns the failure together with the decoded case. `None` when the bytes do not decode to a case.
-    fn check_bytes(&self, tier: Tier, data: &[u8], stats: &Stats) -> Option<(Failure, Value)>;
 }
 
 #[derive(Clone, Debug)]
@@ -426,22 +423,6 @@ impl<P: Prop> DynProp for P {
             }
         });
         found.into_inner().unwrap()
-    }
-
-    fn check_bytes(&self, tier: Tier, data: &[u8], stats: &Stats) -> Option<(Failure, Value)> {
-        if self.cases(tier) == 0 {
-            return None;
-        }
-        let config = Config { failure_persistence: None, max_global_rejects: 64, max_local_rejects: 64, ..Config::default() };
-        let rng = proptest::test_runner::TestRng::from_seed(RngAlgorithm::PassThrough, data);
-        let mut runner = TestRunner::new_with_rng(config, rng);
-        let tree = self.strategy(tier).new_tree(&mut runner).ok()?;
-        let case = tree.current();
-        let res = match guard(|| self.check(&case, stats)) {
-            Ok(r) => r,
-            Err(panic) => Err(Failure::new(format!("panic:{}", panic_site(&panic)), format!("panic: {panic}"))),
-        };
-        res.err().map(|f| (f, serde_json::to_value(&case).unwrap_or(Value::Null)))
     }
 
     fn replay(&self, case: &Value, stats: &Stats) -> Result<Check, String> {
@@ -719,37 +700,3 @@ pub fn boxed<S: Strategy + 'static>(s: S) -> BoxedStrategy<S::Value> {
 }
 
 
-// ---------------------------------------------------------------------------------------------
-// coverage-guided fuzzing entry (used by /verif/fuzz): bytes -> case through the sub-check's own strategy -> same oracle
-// ---------------------------------------------------------------------------------------------
-
-/// One libFuzzer iteration for property `id`: the first byte selects the sub-check, the rest is the random stream of its
-/// strategy. A failure that is not an open known finding is written as a replay file under `$VERIF_ROOT/replays` and
-/// reported by a panic (which libFuzzer turns into a saved crash input).
-pub fn fuzz_one(id: &'static str, props: &[Box<dyn DynProp>], data: &[u8]) {
-    static INIT: std::sync::Once = std::sync::Once::new();
-    INIT.call_once(|| {
-        // libfuzzer-sys installs an aborting panic hook: replace it, panics of the code under test are part of the oracle
-        init_panic_hook();
-        // the library prints progress to stdout
-        init_stdio();
-    });
-    if data.is_empty() || props.is_empty() {
-        return;
-    }
-    let prop = &props[data[0] as usize % props.len()];
-    let stats = Stats::new();
-    if let Some((failure, case)) = prop.check_bytes(Tier::Quick, &data[1..], &stats) {
-        if known_open(id, &failure.signature) || failure.signature.starts_with("harness:") || failure.message.starts_with("inconclusive:") {
-            return;
-        }
-        let root = verif_root();
-        let dir = root.join("replays");
-        let _ = std::fs::create_dir_all(&dir);
-        let path = dir.join(format!("{id}-{}-fuzz-{:016x}.json", prop.name(), hash_of(&format!("{case}"))));
-        let doc = serde_json::json!({"property": id, "prop": prop.name(), "seed": 0, "signature": failure.signature, "message": failure.message, "case": case});
-        let _ = std::fs::write(&path, serde_json::to_string_pretty(&doc).unwrap_or_default());
-        eprintln!("VIOLATION property={id} replay={}\n  sub-check={} signature={}", path.display(), prop.name(), failure.signature);
-        std::process::abort();
-    }
-}
